@@ -342,7 +342,8 @@ def gen_const(rng, kinds=("str", "int", "float", "bool", "hex", "bin", "ts")):
     if k == "str":
         return ("str", rng.choice(STRS))
     if k == "int":
-        return ("int", rng.choice([0, 1, -1, 5, 10, 80, 443, 65535, 1000, -42, 2 ** 31, 123456789012]))
+        return ("int", rng.choice([0, 1, -1, 5, 10, 80, 443, 65535, 1000, -42, 2 ** 31, 123456789012, 2 ** 53, 2 ** 53 + 1, 2 ** 63, -2 ** 64 - 1,
+                                   10 ** 30, 10 ** 400 + 7]))
     if k == "float":
         x = rng.choice([0.5, 1.0, -1.5, 3.25, 100.0, 0.001, 12345.678, -0.25, 2.0, 0.0000001, 123456789.5])
         return ("float", x, _float_text(x))
